@@ -2180,6 +2180,7 @@ func callsFatal(info *types.Info, n ast.Node) bool {
 
 func c16Y7(l *core.Ledger, g *gen.Generator) {
 	info := g.Pkg.TypesInfo
+	validators := delegatingValidators(g)
 	// every call site of validateOptions: its error is tested and the non-nil branch is fatal;
 	// and it is reached for every method: directly in the body of the loop over the methods,
 	// with no way round it (continue/break/return) before it
@@ -2199,8 +2200,18 @@ func c16Y7(l *core.Ledger, g *gen.Generator) {
 			if !ok {
 				return true
 			}
-			if fn := resolvedCall(info, ce); fn == nil || fn.Name() != "validateOptions" {
+			if fn := resolvedCall(info, ce); fn == nil || !validators[fn.Name()] || fn.Pkg() != g.Pkg.Types {
 				return true
+			}
+			// inside a delegating validator the verdict is handed on, not acted upon: its own
+			// call sites are judged for that; "reached for every method" is judged here
+			inDelegator := false
+			for k := len(stack) - 2; k >= 0; k-- {
+				if fd, isFD := stack[k].(*ast.FuncDecl); isFD {
+					if validators[fd.Name.Name] && fd.Name.Name != "validateOptions" {
+						inDelegator = true
+					}
+				}
 			}
 			// the assignment that receives the error, and the statement it belongs to
 			var as *ast.AssignStmt
@@ -2247,7 +2258,7 @@ func c16Y7(l *core.Ledger, g *gen.Generator) {
 			errObj := objOf(info, as.Lhs[0])
 			isErrTest := func(x *ast.IfStmt) bool {
 				be, isBE := x.Cond.(*ast.BinaryExpr)
-				return isBE && be.Op == token.NEQ && objOf(info, be.X) == errObj && callsFatal(info, x.Body)
+				return isBE && be.Op == token.NEQ && objOf(info, be.X) == errObj && (callsFatal(info, x.Body) || (inDelegator && returnsError(x.Body.List)))
 			}
 			ok2 := false
 			if ifs != nil {
@@ -2451,6 +2462,78 @@ func c16Y8(l *core.Ledger, g *gen.Generator) {
 }
 
 // c16Y9: two clauses about gorumsGuard that the loop-shape rule Y6 does not see.
+// delegatingValidators: functions of the generator package with a single error
+// result that hand on the verdict of validateOptions (or of another such
+// function) for the methods they are given: every return is nil or the error of
+// such a call. A call of one of them is a call of validateOptions for the rules
+// that ask "is every method validated, and is a validation error fatal".
+func delegatingValidators(g *gen.Generator) map[string]bool {
+	info := g.Pkg.TypesInfo
+	out := map[string]bool{"validateOptions": true}
+	for changed, round := true, 0; changed && round < 3; round++ {
+		changed = false
+		for _, f := range g.Pkg.Syntax {
+			for _, d := range f.Decls {
+				fd, ok := d.(*ast.FuncDecl)
+				if !ok || fd.Body == nil || fd.Recv != nil || out[fd.Name.Name] {
+					continue
+				}
+				if fd.Type.Results == nil || len(fd.Type.Results.List) != 1 || types.ExprString(fd.Type.Results.List[0].Type) != "error" {
+					continue
+				}
+				calls, okAll := 0, true
+				errVars := map[types.Object]bool{}
+				ast.Inspect(fd.Body, func(n ast.Node) bool {
+					switch x := n.(type) {
+					case *ast.AssignStmt:
+						if len(x.Rhs) == 1 {
+							if ce, isCall := x.Rhs[0].(*ast.CallExpr); isCall {
+								if fn := resolvedCall(info, ce); fn != nil && out[fn.Name()] && fn.Pkg() == g.Pkg.Types {
+									calls++
+									for _, lhs := range x.Lhs {
+										errVars[objOf(info, lhs)] = true
+									}
+								}
+							}
+						}
+					case *ast.FuncLit:
+						return false
+					}
+					return true
+				})
+				ast.Inspect(fd.Body, func(n ast.Node) bool {
+					switch x := n.(type) {
+					case *ast.FuncLit:
+						return false
+					case *ast.ReturnStmt:
+						if len(x.Results) != 1 {
+							okAll = false
+							return true
+						}
+						r := ast.Unparen(x.Results[0])
+						if isNilIdent(info, r) || errVars[objOf(info, r)] {
+							return true
+						}
+						if ce, isCall := r.(*ast.CallExpr); isCall {
+							if fn := resolvedCall(info, ce); fn != nil && out[fn.Name()] && fn.Pkg() == g.Pkg.Types {
+								calls++
+								return true
+							}
+						}
+						okAll = false
+					}
+					return true
+				})
+				if okAll && calls > 0 {
+					out[fd.Name.Name] = true
+					changed = true
+				}
+			}
+		}
+	}
+	return out
+}
+
 func c16Y9(l *core.Ledger, g *gen.Generator) {
 	guard := g.FuncDecl("gorumsGuard")
 	if guard == nil || guard.Body == nil {
@@ -2505,6 +2588,7 @@ func c16Y9(l *core.Ledger, g *gen.Generator) {
 		l.Unknown("C16-Y9", "gengorums.gorumsGuard/go-name", guard.Pos(), "cannot tell which name of a message the guard looks at")
 	}
 	// validation before the nothing-to-do decision
+	validators := delegatingValidators(g)
 	var has, val token.Pos
 	ast.Inspect(guard.Body, func(n ast.Node) bool {
 		ce, ok := n.(*ast.CallExpr)
@@ -2517,8 +2601,8 @@ func c16Y9(l *core.Ledger, g *gen.Generator) {
 				if !has.IsValid() {
 					has = ce.Pos()
 				}
-			case "validateOptions":
-				if !val.IsValid() {
+			default:
+				if validators[f.Name()] && f.Pkg() == g.Pkg.Types && !val.IsValid() {
 					val = ce.Pos()
 				}
 			}
@@ -2682,9 +2766,18 @@ func c16Y13(l *core.Ledger, g *gen.Generator) {
 // other input is promised to be accepted, so a path to a fatal diagnostic on the
 // plugin path is either the propagation of an error (validateOptions, a
 // library) or guarded by one of these documented conditions.
+// definingCall: the function whose call defines obj in the init of ifs or in the statement before it.
+func definingCall(info *types.Info, body *ast.BlockStmt, ifs *ast.IfStmt, obj types.Object) *types.Func {
+	if obj == nil {
+		return nil
+	}
+	return errorSource(info, body, ifs, obj)
+}
+
 func c16Y12(l *core.Ledger, g *gen.Generator) {
 	l.Rule("C16-Y12", "who may reject: every fatal diagnostic on the plugin path is the propagation of an error value (of validateOptions or a function outside the generator package), or is guarded by the reserved-identifier comparison or the one-service-per-file test - the conditions the documentation names; no other predicate over the input rejects it")
 	info := g.Pkg.TypesInfo
+	validators := delegatingValidators(g)
 	n := 0
 	for _, f := range reachableGenFuncs(l, g) {
 		if f.decl != nil && strings.HasSuffix(l.Prog.Fset.File(f.decl.Pos()).Name(), "gorums_bundle.go") {
@@ -2730,7 +2823,7 @@ func c16Y12(l *core.Ledger, g *gen.Generator) {
 					if t := info.TypeOf(be.X); t != nil && types.Identical(t, types.Universe.Lookup("error").Type()) {
 						// where does the error come from?
 						src := errorSource(info, f.body(), ifs, objOf(info, be.X))
-						if src == nil || src.Pkg() == nil || src.Pkg() != g.Pkg.Types || src.Name() == "validateOptions" {
+						if src == nil || src.Pkg() == nil || src.Pkg() != g.Pkg.Types || validators[src.Name()] {
 							reason = "propagates an error"
 						} else {
 							bad = "the error of " + src.Name() + ", a validator of the generator other than validateOptions"
@@ -2759,6 +2852,74 @@ func c16Y12(l *core.Ledger, g *gen.Generator) {
 				}
 				if mentions(func(id *ast.Ident) bool { return rangesOver(info, f.body(), objOf(info, id), "reservedIdents") }) {
 					reason = "reserved identifier"
+					break
+				}
+				// the comparison held by a predicate helper called in the condition itself
+				rangesReserved := func(name string) bool {
+					fd := g.FuncDecl(name)
+					if fd == nil || fd.Body == nil {
+						return false
+					}
+					hit := false
+					ast.Inspect(fd.Body, func(m ast.Node) bool {
+						switch x := m.(type) {
+						case *ast.RangeStmt:
+							if id, isID := x.X.(*ast.Ident); isID && id.Name == "reservedIdents" {
+								hit = true
+							}
+						case *ast.CallExpr:
+							// slices.Contains(reservedIdents, name)
+							for _, a := range x.Args {
+								if id, isID := a.(*ast.Ident); isID && id.Name == "reservedIdents" {
+									hit = true
+								}
+							}
+						}
+						return true
+					})
+					return hit
+				}
+				callsReservedHelper := false
+				ast.Inspect(cond, func(m ast.Node) bool {
+					if ce, isCall := m.(*ast.CallExpr); isCall {
+						if fn := resolvedCall(info, ce); fn != nil && fn.Pkg() == g.Pkg.Types && rangesReserved(fn.Name()) {
+							callsReservedHelper = true
+						}
+						for _, a := range ce.Args {
+							if id, isID := a.(*ast.Ident); isID && id.Name == "reservedIdents" {
+								callsReservedHelper = true
+							}
+						}
+					}
+					return true
+				})
+				if callsReservedHelper {
+					reason = "reserved identifier (predicate helper)"
+					break
+				}
+				// the comparison held by a helper: a value defined from a call of a generator
+				// function whose body ranges over the reserved identifiers
+				if mentions(func(id *ast.Ident) bool {
+					src := definingCall(info, f.body(), ifs, objOf(info, id))
+					if src == nil || src.Pkg() != g.Pkg.Types {
+						return false
+					}
+					fd := g.FuncDecl(src.Name())
+					if fd == nil || fd.Body == nil {
+						return false
+					}
+					ranges := false
+					ast.Inspect(fd.Body, func(m ast.Node) bool {
+						if rs, isRS := m.(*ast.RangeStmt); isRS {
+							if x, isID := rs.X.(*ast.Ident); isID && x.Name == "reservedIdents" {
+								ranges = true
+							}
+						}
+						return true
+					})
+					return ranges
+				}) {
+					reason = "reserved identifier (helper)"
 					break
 				}
 				if mentions(func(id *ast.Ident) bool { return id.Name == "Services" }) {
